@@ -103,6 +103,18 @@ func (svc *HTTPServiceExpr) CanonicalEndpoint() *HTTPEndpointExpr {
 // FullPaths computes the base paths to the service endpoints concatenating the
 // API and parent service base paths as needed.
 func (svc *HTTPServiceExpr) FullPaths() []string {
+	return svc.fullPaths(make(map[*HTTPServiceExpr]struct{}))
+}
+
+// fullPaths implements FullPaths. seen holds the services whose paths are
+// being computed: a cycle of parent services (an invalid design reported by
+// Validate) must not cause an infinite recursion.
+func (svc *HTTPServiceExpr) fullPaths(seen map[*HTTPServiceExpr]struct{}) []string {
+	if _, ok := seen[svc]; ok {
+		return nil
+	}
+	seen[svc] = struct{}{}
+	defer delete(seen, svc)
 	if len(svc.Paths) == 0 {
 		return []string{path.Join(Root.API.HTTP.Path)}
 	}
@@ -119,7 +131,7 @@ func (svc *HTTPServiceExpr) FullPaths() []string {
 					// Note: all these tests should be true at code
 					// generation time as DSL validation makes sure
 					// that parent services have a canonical path.
-					fullPaths := routes[0].FullPaths()
+					fullPaths := routes[0].fullPaths(seen)
 					basePaths = make([]string, len(fullPaths))
 					for i, p := range fullPaths {
 						basePaths[i] = path.Join(p)
@@ -209,8 +221,16 @@ func (svc *HTTPServiceExpr) Validate() error {
 			if p.CanonicalEndpoint() == nil {
 				verr.Add(svc, "Parent service %s has no canonical endpoint", n)
 			}
-			if p.ParentName == svc.Name() {
-				verr.Add(svc, "Parent service %s is also child", n)
+			seen := map[*HTTPServiceExpr]struct{}{svc: {}}
+			for anc := p; anc != nil; anc = anc.Parent() {
+				if anc == svc {
+					verr.Add(svc, "Parent service %s is also child", n)
+					break
+				}
+				if _, ok := seen[anc]; ok {
+					break // cycle among the ancestors, reported on them
+				}
+				seen[anc] = struct{}{}
 			}
 		}
 	}
